@@ -85,7 +85,7 @@ theorem run_setUnion (ks : List Bytes) :
     show Except.ok (Model.bytesList (setUnionRaw db (k :: rest) now)) = _
     rw [setUnionRaw_eq hw.wf]; rfl
 
-theorem run_setInter {ks : List Bytes} (hd : ks.Nodup) :
+theorem run_setInter (ks : List Bytes) :
     RefS now (dbRun (.setInter ks) now db)
       (Spec.ok (Spec.bytesList (setInterOf (abs now db) ks)) (abs now db)) := by
   show RefS now (setInter db ks now) _
@@ -95,7 +95,7 @@ theorem run_setInter {ks : List Bytes} (hd : ks.Nodup) :
   | cons k rest =>
     refine ⟨?_, rfl⟩
     show Except.ok (Model.bytesList (setInterRaw db (k :: rest) now)) = _
-    rw [setInterRaw_eq hw (by simp) hd]; rfl
+    rw [setInterRaw_eq hw (by simp)]; rfl
 
 theorem run_setExists (k e : Bytes) :
     RefS now (dbRun (.setExists k e) now db)
@@ -147,14 +147,14 @@ theorem run_setUnionStore {d : Bytes} (hns : staleKey db now d = false) {ks : Li
   exact setUnionOf_congr (fun k hk => setAt_frame hw.names hw2.names hfr now (hnd k hk))
 
 theorem run_setInterStore {d : Bytes} (hns : staleKey db now d = false) {ks : List Bytes}
-    (hds : ks.contains d = false) (hd : ks.Nodup) :
+    (hds : ks.contains d = false) :
     RefS now (dbRun (.setInterStore d ks) now db)
       (Spec.setStore (abs now db) d ks (setInterOf (abs now db) ks)) := by
   have hnd := not_mem_of_contains hds
   refine setStore_refS hw hns ks _ (ssorted_setInterOf hw now ks) ?_
   intro hne db2 hw2 hfr
   show setInterRaw db2 ks now = _
-  rw [setInterRaw_eq hw2 (by intro h; rw [h] at hne; cases hne) hd]
+  rw [setInterRaw_eq hw2 (by intro h; rw [h] at hne; cases hne)]
   exact setInterOf_congr (fun k hk => setAt_frame hw.names hw2.names hfr now (hnd k hk))
 
 end run
